@@ -359,7 +359,8 @@ def main(run):
     lines.append("window")
     meta.append(("window", None, None))
 
-    nlat = 15000 if thorough else 900
+    nlat = 10000 if thorough else 900
+    wcap = 20000 if thorough else 3000  # largest box (lattice points) for which the per-lattice window certificate is evaluated
     win_checked = False
     made = 0
     attempts = 0
@@ -463,8 +464,9 @@ def main(run):
         T = tmi.T  # what the Python layer hands to the kernel as trans_mat
         lines.append("pd " + qs(flat(Gred)))
         meta.append(("pd", case, None))
-        lines.append("wincert 60000 " + qs(flat(Gred)))
-        meta.append(("wincert", case, None))
+        if made % 5 == 0:  # the per-lattice certificate costs ~0.1-0.3 s in the interpreted driver
+            lines.append("wincert %d %s" % (wcap, qs(flat(Gred))))
+            meta.append(("wincert", case, None))
         lines.append("svecs %s %s %d %s %d %d %s %s" % (qs(flat(Gred)), ints(T), len(lp), ints(lp), nto, nfrom, qs(flat(exact_to)), qs(flat(exact_from))))
         meta.append(("svecs", case, (dsv, dmu, ssv, smu, scale)))
         # completeness oracle through the model's specShortest: every pair of the first `nspec` lattices, one pair afterwards
@@ -482,7 +484,7 @@ def main(run):
     # |r| - min|r| < symprec in LENGTH. Images in the grey zone (symprec/10, 10*symprec) make the case undecided (skipped), so a
     # harmless change of the constant cannot alarm.
     INSIDE, OUTSIDE = SYMPREC / 10, SYMPREC * 10
-    ntol = 1200 if thorough else 160
+    ntol = 1500 if thorough else 240
     done_tol = 0
     tries = 0
     while done_tol < ntol and tries < 6 * ntol:
@@ -555,7 +557,7 @@ def main(run):
 
     # ------------------------------------------------------------ Primitive.get_smallest_vectors
     names = ["sc", "cscl", "nacl_prim", "bcc", "fcc", "hcp", "zincblende_prim", "bct", "ortho_C", "mono_P", "triclinic", "rhombo", "nacl", "diamond", "wurtzite"]
-    nprim = 200 if thorough else 30
+    nprim = 200 if thorough else 40
     for _ in range(nprim):
         name = rng.choice(names)
         cell, cen = gen.make_cell(name)
@@ -631,7 +633,7 @@ def main(run):
             info = dict(cell=name, supercell_matrix=smat.tolist(), path="Primitive.get_smallest_vectors")
             lines.append("pd " + qs(flat(Gred)))
             meta.append(("pd", info, None))
-            lines.append("wincert 60000 " + qs(flat(Gred)))
+            lines.append("wincert %d %s" % (wcap, qs(flat(Gred))))
             meta.append(("wincert", info, None))
             lines.append("svecs %s %s %d %s %d %d %s %s" % (qs(flat(Gred)), ints(Ttot), len(lp), ints(lp), len(exact_to), len(exact_from),
                                                            qs(flat(exact_to)), qs(flat(exact_from))))
@@ -689,7 +691,7 @@ def main(run):
             if tk[0] == "1":
                 run.count("window certificate passes: completeness is a theorem for this lattice, all separations", section="correspondence")
             elif tk[0] == "skip":
-                run.count("window certificate not evaluated (box > 60000 points)", section="correspondence")
+                run.count("window certificate not evaluated (box above the tier cap)", section="correspondence")
             else:
                 run.count("window certificate inconclusive (per-pair specShortest comparison decides)", section="correspondence")
                 run.sample(dict(kind="window certificate inconclusive", case=case), limit=8)
